@@ -756,7 +756,11 @@ def ufunc_dispatch(ufunc, method, inputs, kwargs):
     plain = [_obj(x) for x in inputs]
     nout = ufunc.nout
     if where is True and out is None:
-        res = _np.frompyfunc(f, ufunc.nin, nout)(*plain)
+        if not any(isinstance(x, _ND) for x in plain):
+            res = f(*[x.item() if isinstance(x, _np.generic) else x for x in plain])
+        else:
+            plain = [_np.asarray(x, dtype=object) if not isinstance(x, _ND) and is_sym_scalar(x) else x for x in plain]
+            res = _np.frompyfunc(f, ufunc.nin, nout)(*[_box(x) for x in plain])
         if nout == 1:
             res = (res,)
         outs = []
@@ -794,6 +798,15 @@ def ufunc_dispatch(ufunc, method, inputs, kwargs):
             part.write(idx, v)
         tp[idx] = lift(v, k)
     return target
+
+
+def _box(x):
+    """scalars with __array_ufunc__ must not re-enter dispatch through frompyfunc: box them in 0-d object arrays"""
+    if is_sym_scalar(x) or isinstance(x, Pow2):
+        a = _np.empty((), dtype=object)
+        a[()] = x
+        return a
+    return x
 
 
 def _obj(x):
